@@ -222,7 +222,7 @@ fn evaluate_inner(plan: &Plan, out: &RunOut, obs: &mut Vec<Violation>) -> Vec<Vi
         }
     }
 
-    genuine_packet_rejected(p, pre, out, &mut vs);
+    genuine_packet_rejected(p, pre, plan, out, &mut vs);
 
     if p == "C18" {
         c18(plan, out, &mut vs);
@@ -264,22 +264,43 @@ fn parse_stream_reject(pk: &str) -> Option<link::PktId> {
 /// delivered datagram carries, is a genuine packet rejected.  Duplicates, packets of finished
 /// streams, replays and out-of-window key ids are reported by the receiver under other error
 /// kinds and are not counted.
-fn genuine_packet_rejected(p: &str, pre: &str, out: &RunOut, vs: &mut Vec<Violation>) {
+fn genuine_packet_rejected(p: &str, pre: &str, plan: &Plan, out: &RunOut, vs: &mut Vec<Violation>) {
     if out.log_truncated {
         return;
     }
     let mut forged: BTreeMap<link::PktId, u64> = BTreeMap::new();
     let mut genuine: BTreeMap<link::PktId, u64> = BTreeMap::new();
+    // genuine deliveries the receiver is entitled to refuse as duplicates: its duplicate filter is a
+    // 129-wide sliding window over the packet numbers it has accepted, per stream, direction and
+    // packet-number space; the refusal of such a packet surfaces as `Duplicate` or (because the
+    // error path authenticates the already opened buffer a second time) as `invalid tag`
+    let mut stale: BTreeMap<link::PktId, u64> = BTreeMap::new();
     let mut retx: std::collections::BTreeSet<link::PktId> = Default::default();
-    for r in &out.log {
-        if r.fate != FATE_DELIVERED || r.t_deliver_ns == 0 {
+    let mut order: Vec<usize> = (0..out.log.len()).filter(|i| out.log[*i].fate == FATE_DELIVERED && out.log[*i].t_deliver_ns > 0).collect();
+    order.sort_by_key(|i| (out.log[*i].t_deliver_ns, *i));
+    let mut windows: BTreeMap<(u128, u64, u8, u8), (std::collections::BTreeSet<u64>, u64)> = BTreeMap::new();
+    for i in order {
+        let r = &out.log[i];
+        let Some(id) = r.pkt else { continue };
+        if r.label == LABEL_FORGED {
+            *forged.entry(id).or_insert(0) += 1;
             continue;
         }
-        if let Some(id) = r.pkt {
-            *(if r.label == LABEL_FORGED { &mut forged } else { &mut genuine }).entry(id).or_insert(0) += 1;
-            if r.label != LABEL_FORGED && r.retx {
-                retx.insert(id);
+        *genuine.entry(id).or_insert(0) += 1;
+        if r.retx {
+            retx.insert(id);
+        }
+        if id.kind == link::KIND_STREAM {
+            let pn = id.f[2];
+            // one window per stream and direction: early packets carry queue id 0 (acceptor), later ones
+            // the peer's queue id, but they share the receiver's filter
+            let w = windows.entry((id.cred, id.f[0], r.dir, r.space)).or_insert_with(|| (Default::default(), 0));
+            let fresh = !w.0.contains(&pn) && !(w.1 >= pn + 129);
+            if !fresh {
+                *stale.entry(id).or_insert(0) += 1;
             }
+            w.0.insert(pn);
+            w.1 = w.1.max(pn);
         }
     }
     let mut fails: BTreeMap<link::PktId, (u64, String)> = BTreeMap::new();
@@ -297,14 +318,41 @@ fn genuine_packet_rejected(p: &str, pre: &str, out: &RunOut, vs: &mut Vec<Violat
         let e = fails.entry(id).or_insert((0, "control packet failed authentication".into()));
         e.0 += 1;
     }
+    // A refusal reported for a packet that the same receiver nevertheless acknowledged is the
+    // receiver authenticating an already opened buffer a second time on an internal error path
+    // (observed on the unchanged tree: the packet's data was taken, its number acknowledged).  The
+    // sender's `stream_packet_acked` events tell which packets were acknowledged; failures in the
+    // last moments of a run (acknowledgement possibly still in flight) are not judged.
+    let margin_ns = (4 * (plan.cfg.base_delay_us + plan.cfg.jitter_us) + 100_000) * 1000;
+    let mut last_delivery: BTreeMap<link::PktId, u64> = BTreeMap::new();
+    for r in &out.log {
+        if r.fate == FATE_DELIVERED && r.t_deliver_ns > 0 && r.label != LABEL_FORGED {
+            if let Some(id) = r.pkt {
+                let e = last_delivery.entry(id).or_insert(0);
+                *e = (*e).max(r.t_deliver_ns);
+            }
+        }
+    }
     let mut hits = vec![];
+    let mut excused_acked = 0u64;
     for (id, (n, err)) in &fails {
-        let nf = forged.get(id).copied().unwrap_or(0);
+        let nf = forged.get(id).copied().unwrap_or(0) + stale.get(id).copied().unwrap_or(0);
         let ng = genuine.get(id).copied().unwrap_or(0);
         if *n > nf && ng > 0 {
+            if id.kind == link::KIND_STREAM {
+                let total = id.f[5] + id.f[4] + 16;
+                if out.app.rejects.acked.contains(&(id.f[2], id.f[3], id.f[4], total)) {
+                    excused_acked += 1;
+                    continue;
+                }
+            }
+            if last_delivery.get(id).copied().unwrap_or(0) + margin_ns > out.end_ns {
+                continue;
+            }
             hits.push((*id, *n, nf, ng, err.clone()));
         }
     }
+    let _ = excused_acked;
     for (kind, want_retx) in [(link::KIND_STREAM, false), (link::KIND_STREAM, true), (link::KIND_CONTROL, false)] {
         let of_kind: Vec<_> = hits.iter().filter(|h| h.0.kind == kind && retx.contains(&h.0) == want_retx).collect();
         if let Some((id, n, nf, ng, err)) = of_kind.first() {
@@ -320,7 +368,7 @@ fn genuine_packet_rejected(p: &str, pre: &str, out: &RunOut, vs: &mut Vec<Violat
                 p,
                 &format!("{pre}.genuine_packet_rejected"),
                 format!(
-                    "{} genuine packet identities rejected; first: {what}: {n} authentication failure(s) reported by the receiver ({err}) but only {nf} forged datagram(s) with that identity were delivered ({ng} genuine delivered)",
+                    "{} genuine packet identities rejected; first: {what}: {n} authentication failure(s) reported by the receiver ({err}) but only {nf} forged or duplicate/out-of-window datagram(s) with that identity were delivered ({ng} genuine delivered)",
                     of_kind.len()
                 ),
                 if kind == link::KIND_CONTROL {
